@@ -194,6 +194,17 @@ def _run_psd(case, ctx):
         ctx.violation("psd_mesoporous/fewer-than-3-points-not-refused", "a window with fewer than three points was analysed", npoints=len(used))
         return
     out = res[1]
+    if case["seed"] % 2 == 0:
+        # another sample is analysed with the same settings (same pressures, other volumes) while this result is still held:
+        # a result, once returned, is the caller's
+        try:
+            iso_b = pygaps.PointIsotherm(pressure=pp, loading=[x * 1.7 + vscale * 0.02 * i for i, x in enumerate(vv)] if branch == "ads" else [x * 1.7 for x in vv], branch=bb, material="verif-c16-b", adsorbate=ads_name,
+                                         temperature=T if tunit == "K" else T - 273.15, pressure_mode=pmode, pressure_unit=None, loading_basis="volume_liquid", loading_unit="cm3", material_basis="mass",
+                                         material_unit="g", temperature_unit=tunit)
+            _call(pm.psd_mesoporous, iso_b, **kw)
+            ctx.count("histories", "second-analysis-before-the-first-result-is-read")
+        except Exception:
+            pass
     pu, vu = p[used], v[used]
     men = meniscus or get_meniscus_geometry(branch, geom)
     exp_men = {("ads", "slit"): "hemicylindrical", ("ads", "cylinder"): "cylindrical", ("ads", "sphere"): "hemispherical", ("des", "slit"): "hemicylindrical", ("des", "cylinder"): "hemispherical",
